@@ -292,7 +292,7 @@ def build_mixed(ch, acc, with_ack_groups=True, **kw):
 
 
 ENVELOPE_FAULTS = ['se-count', 'se-id', 'ge-count', 'ge-id', 'iea-count', 'iea-id', 'gs-date', 'gs-time', 'st-dup', 'gs-dup', 'gs-code',
-                   'se-count-alpha', 'st-id-long', 'se-count', 'st-dup', 'st-many-codes', 'st-many-codes', 'st-many-codes', 'drop-trailer', 'st-dup-far', 'gs-dup-far', 'trailer-and-neighbour', 'trailer-and-neighbour', 'envelope-extra-element', 'envelope-extra-element', 'stray-after-trailer', 'stray-after-trailer', 'spelling', 'spelling', 'spelling', 'header-cut-short', 'header-cut-short', 'count-with-components', 'count-with-components', 'empty-group', 'empty-group']
+                   'se-count-alpha', 'st-id-long', 'se-count', 'st-dup', 'st-many-codes', 'st-many-codes', 'st-many-codes', 'drop-trailer', 'st-dup-far', 'gs-dup-far', 'trailer-and-neighbour', 'trailer-and-neighbour', 'envelope-extra-element', 'envelope-extra-element', 'stray-after-trailer', 'stray-after-trailer', 'spelling', 'spelling', 'spelling', 'header-cut-short', 'header-cut-short', 'count-with-components', 'count-with-components', 'empty-group', 'empty-group', 'empty-interchange', 'empty-interchange']
 
 
 def envelope_fault(doc, ch):
@@ -397,6 +397,20 @@ def _envelope_fault(doc, ch):
                     except ValueError:
                         pass
                     break
+    elif kind == 'empty-interchange':
+        # a last interchange without any functional group (ISA directly followed by IEA*0, or holding a TA1 only)
+        isa = [s_ for s_ in doc.segs if s_.id == 'ISA']
+        iea = [s_ for s_ in doc.segs if s_.id == 'IEA']
+        if not isa or not iea or len(isa[-1].vals) < 13:
+            return None
+        ctl = '%09d' % ((int(isa[-1].vals[12][0]) + 1) % 10 ** 9) if isa[-1].vals[12][0].isdigit() else '000000077'
+        nisa = docgen.GSeg(isa[-1].node, [list(x) for x in isa[-1].vals], list(isa[-1].chain))
+        niea = docgen.GSeg(iea[-1].node, [list(x) for x in iea[-1].vals], list(iea[-1].chain))
+        nisa.vals[12] = [ctl]
+        niea.vals[0] = ['0']
+        if len(niea.vals) > 1:
+            niea.vals[1] = [ctl]
+        doc.segs.extend([nisa, niea])
     elif kind == 'trailer-and-neighbour':
         # an element error on a trailer and one at the same element position of the segment right before it
         c = [i for i, s_ in enumerate(doc.segs) if s_.id == 'SE' and i > 0 and doc.segs[i - 1].id not in ('ST', 'ISA', 'GS')]
